@@ -49,10 +49,17 @@ type Case struct {
 	// OnCloseHook (generic, network): the driver has an on-close function that sends a command;
 	// with the peer gone it fails, and the close must complete all the same.
 	OnCloseHook bool `json:"on_close_hook,omitempty"`
+	// RoundNoOp: the re-open rounds run no operation: Close follows Open at once
+	RoundNoOp bool `json:"round_no_op,omitempty"`
+	// StaleStays (wall clock, close behaviour block): the read parked at the end of a session is
+	// never woken, not even by the next session on the same transport
+	StaleStays bool `json:"stale_stays,omitempty"`
 }
 
 var states = []string{
 	"idle", "eof", "err-pending", "err-consumed", "data-concurrent", "err-concurrent", "eof-concurrent", "op-inflight",
+	// Close follows Open at once: no operation, the read loop may not even have started
+	"just-opened",
 }
 
 func gen(t *rapid.T) Case {
@@ -68,6 +75,11 @@ func gen(t *rapid.T) Case {
 		Subscribe:   rapid.IntRange(0, 2).Draw(t, "subscribe") == 0,
 		Reopen:      rapid.SampledFrom([]int{0, 0, 0, 1, 2}).Draw(t, "reopen"),
 		OnCloseHook: rapid.IntRange(0, 3).Draw(t, "onCloseHook") == 0,
+		RoundNoOp:   rapid.IntRange(0, 2).Draw(t, "roundNoOp") == 0,
+	}
+
+	if c.State == "just-opened" {
+		c.WarmOps = 0
 	}
 
 	if c.State == "op-inflight" {
@@ -258,6 +270,13 @@ func genRT(t *rapid.T) Case {
 	c := gen(t)
 	c.RealTime = true
 	c.ReadDelayNS = int64(rapid.SampledFrom([]time.Duration{0, 10 * time.Microsecond, 250 * time.Microsecond}).Draw(t, "readDelayRT"))
+	c.StaleStays = c.CloseMode == sim.CloseBlock && c.Reopen > 0 && rapid.Bool().Draw(t, "staleStays")
+
+	if c.StaleStays {
+		// the stale read keeps the transport's read lock: the next session cannot read a byte, so
+		// nothing but "it can still be closed" is asked of it
+		c.Reopen, c.State, c.WarmOps, c.SkewNS = 1, "just-opened", 0, 0
+	}
 
 	if c.SkewNS != 0 {
 		rd := c.ReadDelayNS
@@ -299,6 +318,7 @@ func run1(c Case) ev.Verdict {
 	}
 
 	s.pipe.CloseMode = c.CloseMode
+	s.pipe.StaleStays = c.StaleStays && c.RealTime
 
 	if c.CloseFails {
 		s.pipe.CloseErr = io.EOF
@@ -320,13 +340,26 @@ func run1(c Case) ev.Verdict {
 			return ev.Fail("round %d: Open: %v", round, err)
 		}
 
-		if err = s.op(0); err != nil && !c.RealTime {
-			s.pipe.Release()
+		if !c.RoundNoOp {
+			if err = s.op(0); err != nil && !c.RealTime {
+				s.pipe.Release()
 
-			return ev.Fail("round %d: operation: %v", round, err)
+				return ev.Fail("round %d: operation: %v", round, err)
+			}
 		}
 
-		if err = s.close(); err != nil && !c.CloseFails {
+		roundClosed := make(chan error, 1)
+		go func() { roundClosed <- s.close() }()
+
+		select {
+		case err = <-roundClosed:
+		case <-time.After(time.Duration(c.ReadDelayNS)*time.Duration(c.ReadDelayNS/1000) + 20*time.Second):
+			s.pipe.Release()
+
+			return ev.Fail("round %d: Close did not return within 20 s (no-op round: %v, transport close behaviour %s)", round, c.RoundNoOp, c.CloseMode)
+		}
+
+		if err != nil && !c.CloseFails {
 			s.pipe.Release()
 
 			return ev.Fail("round %d: Close: %v", round, err)
@@ -375,6 +408,7 @@ func run1(c Case) ev.Verdict {
 	opRunning := false
 
 	switch c.State {
+	case "just-opened":
 	case "idle":
 		quiesce(c)
 	case "eof":
